@@ -44,6 +44,7 @@ pub fn plan(property: &str, tier: &str) -> Option<CheckPlan> {
     let seed = seed_from_env();
     let thorough = tier == "thorough";
     match property {
+        "C07" => Some(c07(seed, tier, thorough)),
         "C09" => Some(c09(seed, tier, thorough)),
         _ => None,
     }
@@ -89,5 +90,38 @@ fn c09(seed: u64, tier: &str, thorough: bool) -> CheckPlan {
         required_probes: vec!["allocation_refused_runs".into(), "baseline_return_checked".into(), "payload_checked".into()],
         exhaustive: false,
         extra: json!({"std_prefix_events_skipped_per_script": prefix}),
+    }
+}
+
+fn c07(seed: u64, tier: &str, thorough: bool) -> CheckPlan {
+    let mut jobs = vec![];
+    for p in crate::checks::c07::catalogue() {
+        let counts: Vec<u64> = if p.tail {
+            if thorough { vec![0, 1, 2, 3, 4, 7, 10, 100, 1000, 10_000, 100_000] } else { vec![0, 1, 2, 3, 10, 1000, 100_000] }
+        } else if thorough {
+            vec![0, 1, 2, 3, 4, 7, 10, 50, 200, 1000]
+        } else {
+            vec![0, 1, 2, 3, 10, 200]
+        };
+        jobs.push(job("C07", "placement", seed, tier, json!({"placement": p.name, "counts": counts})));
+    }
+    CheckPlan {
+        property: "C07".into(),
+        tier: tier.into(),
+        seed,
+        level: "fault_enumeration".into(),
+        jobs,
+        rule: "One evaluation = one run of a generated recursive function (fixed catalogue of self-call placements: 16 tail, 11 non-tail) \
+               at one iteration count under one depth/recursion limit configuration (fault-free, depth in {3, h-1, h, h+1}, recursion in {0, n-1, n, n+1}, \
+               and recursion combined with a tight depth limit). Outcome, deepest frame, tail-iteration count and call count are compared with closed forms. \
+               Distinct = (placement, n, depth limit, recursion limit, outcome class).".into(),
+        assumptions: vec![
+            "placements outside the catalogue (arbitrary programs) are not decided".into(),
+            "frame heights and tail iterations are read from observer events in RuntimeScope::from_template / the trampoline loop".into(),
+        ],
+        opts: SupOpts::default(),
+        required_probes: vec!["deep_tail_loop_under_small_depth_limit".into(), "nontail_depth_trip".into(), "tail_recursion_trip".into()],
+        exhaustive: true,
+        extra: json!({}),
     }
 }
